@@ -32,7 +32,7 @@ from ..engine.report import AnalysisError, Run, first_line
 from ..engine.resolver import FuncNode, Program, walk_no_nested
 from ..engine.sympath import SymUnsupported, sym_block
 from ..engine.util import find_calls, method_call, u
-from ._c17_util import (FIELDS, GROUP, Side, agg_term, availability, bind_target, elem_of, nonempty_test, fold_loops, index_fields, is_name,
+from ._c17_util import (FIELDS, GROUP, Side, agg_term, availability, bind_target, dewalrus_comprehensions, elem_of, fold_list_loops, nonempty_test, fold_loops, index_fields, is_name,
                         loop_passes, name, path_follower, prepared, project_records, record_fields, returns_of, seg, set_elem, simple_call, splice, strip_doc)
 
 MC = "timeseries.battery_pool._metric_calculator"
@@ -79,8 +79,10 @@ class Validated:
     of `calculate`, a private method or a private module function that is still called from the
     (helper-spliced) body of `calculate` and constructs a PowerBounds.  It may return the record or a
     tuple carrying it (`index`).  `id_param` / `metric_param` are the parameters playing the component
-    id (`<data source>.get(id)` / `[id]` yields the data object) and the requested metric ids (the loop
-    that appends `<data>.get(metric)`); `pos` maps list position -> PowerBounds field."""
+    id (`<data source>.get(id)` / `[id]` yields the data object; or `data_param` when the caller does that
+    lookup and passes the data object) and the requested metric ids (the list of `<data>.get(metric)`
+    values, built by a loop or a comprehension, is indexed into the record); `pos` maps list position ->
+    PowerBounds field."""
 
     def __init__(self, prog: Program, fn: Any, node: FuncNode) -> None:
         self.prog, self.fn = prog, fn
@@ -119,31 +121,17 @@ class Validated:
         self.params = [x.arg for x in a.posonlyargs + a.args + a.kwonlyargs]
         self.index: int | None = None
         self.pos: dict[int, str] = {}
-        self.id_param = self.metric_param = ""
+        self.id_param = self.metric_param = self.data_param = ""
         self.reader_ok = self._analyse()
 
     def _analyse(self) -> bool:  # noqa: C901
         vfn = self.node
         pb_fields = record_fields(self.prog, RESULT_MOD, "PowerBounds")
-        # lists filled by `.append`: kept symbolic while the other locals are substituted
-        filled = {s.targets[0].id if isinstance(s, ast.Assign) else s.target.id  # type: ignore[union-attr]
-                  for s in walk_no_nested(vfn) if isinstance(s, (ast.Assign, ast.AnnAssign))
-                  and isinstance(s.value, ast.List) and not s.value.elts
-                  and isinstance(s.targets[0] if isinstance(s, ast.Assign) else s.target, ast.Name)}
+        # the list of metric values read as ONE comprehension, however it is built (append loop,
+        # comprehension, walrus filter)
         vcopy = copy.deepcopy(vfn)
-
-        class DropInit(ast.NodeTransformer):
-            def visit_FunctionDef(self, n: ast.FunctionDef) -> ast.AST:  # noqa: N802
-                return self.generic_visit(n) if n is vcopy else n
-
-            def drop(self, n: Any) -> Any:
-                t = n.targets[0] if isinstance(n, ast.Assign) else n.target
-                if isinstance(t, ast.Name) and t.id in filled and isinstance(n.value, ast.List) and not n.value.elts:
-                    return ast.copy_location(ast.Pass(), n)
-                return n
-            visit_Assign = visit_AnnAssign = drop  # noqa: N815
-
-        DropInit().visit(vcopy)
+        dewalrus_comprehensions(vcopy)
+        fold_list_loops(vcopy)
         records: list[ast.Call] = []
         indices: set[int | None] = set()
         for p in returns_of(vcopy, f"{self.fn.qual}.{vfn.name}"):
@@ -151,56 +139,54 @@ class Validated:
             slots = list(enumerate(r.elts)) if isinstance(r, ast.Tuple) else [(None, r)]
             for i, e in slots:
                 if isinstance(e, ast.Call) and _callee(e) == "PowerBounds":
+                    args = positional(e, pb_fields)
+                    if any(isinstance(v, ast.Subscript) and isinstance(v.value, ast.List) and not v.value.elts
+                           for v in args.values()):
+                        continue                         # `[][i]`: the path on which no data was read cannot get here
                     records.append(e)
                     indices.add(i)
         if not records or len(indices) != 1 or len({u(r) for r in records}) != 1:
             return False
         self.index = next(iter(indices))
-        bases: set[str] = set()
+        bases: dict[str, ast.AST] = {}
         a = positional(records[0], pb_fields)
         for f, v in a.items():
-            if isinstance(v, ast.Subscript) and isinstance(v.value, ast.Name) and isinstance(v.slice, ast.Constant) \
-                    and isinstance(v.slice.value, int):
+            if isinstance(v, ast.Subscript) and isinstance(v.slice, ast.Constant) and isinstance(v.slice.value, int) \
+                    and not isinstance(v.slice.value, bool):
                 self.pos[v.slice.value] = f
-                bases.add(v.value.id)
-        if not (set(a) == set(pb_fields) and sorted(self.pos) == [0, 1, 2, 3] and len(bases) == 1 and bases <= filled):
+                bases[u(v.value)] = v.value
+        if not (set(a) == set(pb_fields) and sorted(self.pos) == [0, 1, 2, 3] and len(bases) == 1):
             return False
-        # the indexed list holds, in request order, `<data>.get(<i-th metric id>)`
-        res = next(iter(bases))
-
-        def is_append(c: ast.Call) -> bool:
-            return method_call(c, res, "append")
-
-        loops = [s for s in walk_no_nested(vfn) if isinstance(s, ast.For) and isinstance(s.iter, ast.Name)
-                 and s.iter.id in self.params and isinstance(s.target, ast.Name) and find_calls(s, is_append)]
-        if len(find_calls(vfn, is_append)) != 1 or len(loops) != 1:
+        # the indexed list holds, in request order, `<data>.get(<i-th metric id>)` (None values left out)
+        lst = next(iter(bases.values()))
+        if not (isinstance(lst, ast.ListComp) and len(lst.generators) == 1 and isinstance(lst.generators[0].iter, ast.Name)
+                and lst.generators[0].iter.id in self.params):
             return False
-        try:
-            vals = [c.node.args for p, _st in sym_block(loops[0].body) for c in p.calls(is_append)]
-        except SymUnsupported:
+        self.metric_param = lst.generators[0].iter.id
+        el = elem_of(lst)
+        if not (isinstance(el, ast.Call) and isinstance(el.func, ast.Attribute) and el.func.attr == "get"
+                and len(el.args) == 1 and not el.keywords and is_name(el.args[0], f"<elem of {self.metric_param}>")):
             return False
-        if not vals or not all(
-                len(v) == 1 and isinstance(v[0], ast.Call) and isinstance(v[0].func, ast.Attribute)
-                and v[0].func.attr == "get" and len(v[0].args) == 1 and not v[0].keywords
-                and is_name(v[0].args[0], loops[0].target.id) for v in vals) \
-                or len({u(v[0].func.value) for v in vals}) != 1:  # type: ignore[attr-defined]
-            return False
-        self.metric_param = loops[0].iter.id
-        # the data object is looked up under the component-id parameter
-        src: ast.AST = vals[0][0].func.value  # type: ignore[attr-defined]
-        if isinstance(src, ast.Name):
-            binds = [n.value for n in ast.walk(vfn) if isinstance(n, ast.NamedExpr) and is_name(n.target, src.id)]
-            binds += [n.value for n in ast.walk(vfn) if isinstance(n, ast.Assign) and len(n.targets) == 1
-                      and is_name(n.targets[0], src.id)]
-            if len(binds) != 1:
-                return False
-            src = binds[0]
-        key = src.args[0] if isinstance(src, ast.Call) and isinstance(src.func, ast.Attribute) and src.func.attr == "get" \
-            and len(src.args) == 1 and not src.keywords else src.slice if isinstance(src, ast.Subscript) else None
+        # the data object is a parameter, or is looked up under the component-id parameter
+        src: ast.AST = el.func.value
+        if isinstance(src, ast.Name) and src.id in self.params and src.id != self.metric_param:
+            self.data_param = src.id
+            return True
+        key = self._lookup_key(src)
         if not (isinstance(key, ast.Name) and key.id in self.params and key.id != self.metric_param):
             return False
         self.id_param = key.id
         return True
+
+    @staticmethod
+    def _lookup_key(src: ast.AST | None) -> ast.AST | None:
+        """K in `<source>.get(K)` / `<source>[K]`."""
+        if isinstance(src, ast.Call) and isinstance(src.func, ast.Attribute) and src.func.attr == "get" \
+                and len(src.args) == 1 and not src.keywords:
+            return src.args[0]
+        if isinstance(src, ast.Subscript):
+            return src.slice
+        return None
 
     def match(self, e: ast.AST | None) -> tuple[ast.AST, ast.AST] | None:
         """(component-id argument, metric-ids argument) if `e` is the PowerBounds | None a call yields."""
@@ -210,8 +196,14 @@ class Validated:
             e = e.value
         if isinstance(e, ast.Call) and self.reader_ok and _helper_target(self.prog, self.fn, e, self.nested) is self.node:
             b = _bind(self.node, e)
-            if b is not None and self.id_param in b and self.metric_param in b:
+            if b is None or self.metric_param not in b:
+                return None
+            if self.id_param and self.id_param in b:
                 return b[self.id_param], b[self.metric_param]
+            if self.data_param and self.data_param in b:    # the caller looks the data object up
+                key = self._lookup_key(b[self.data_param])
+                if key is not None:
+                    return key, b[self.metric_param]
         return None
 
 
